@@ -477,3 +477,43 @@ func (c *Conn) RunCheckpoint(spec CheckpointSpec) (res TxResult) {
 	res.NewImage = d.M
 	return res
 }
+
+// SwitchToRollback does what `PRAGMA journal_mode=<mode>` does on a WAL-mode
+// database with a single connection: checkpoint everything, close and delete
+// the shared-memory file and the log, then rewrite page 1 (file-format
+// versions 1/1) inside an ordinary rollback-journal transaction.
+func (c *Conn) SwitchToRollback(mode string) (res TxResult) {
+	d := c.D
+	fail := func(step string, err error) TxResult {
+		res.Err, res.ErrStep = err, step
+		return res
+	}
+	if r := c.RunCheckpoint(CheckpointSpec{Kind: "truncate"}); r.Err != nil {
+		return fail("switch-ckpt/"+r.ErrStep, r.Err)
+	}
+	if err := d.step("close shm"); err != nil {
+		return fail("switch-close", err)
+	}
+	if c.shm != nil {
+		c.shm.Close(c.Owner)
+		c.shm = nil
+	}
+	if err := d.N.Remove(d.Name + "-shm"); err != nil && drv.Errno(err) != syscall.ENOENT {
+		return fail("switch-rm-shm", err)
+	}
+	if c.wal != nil {
+		c.wal.Close(c.Owner)
+		c.wal = nil
+	}
+	if err := d.step("remove wal"); err != nil {
+		return fail("switch-rm-wal", err)
+	}
+	if err := d.N.Remove(d.Name + "-wal"); err != nil && drv.Errno(err) != syscall.ENOENT {
+		return fail("switch-rm-wal", err)
+	}
+	d.WalEnd, d.Backfilled, d.WalContent = 0, true, map[uint32][]byte{}
+	_ = c.UnlockAll()
+	d.WALMode = false
+	c.readMark = -1
+	return c.RunRollbackTx(RollbackSpec{Mode: mode, Outcome: "commit", NewPageN: d.M.PageN})
+}
